@@ -13,7 +13,9 @@ META = {
               'which every id ladder takes the same rungs; ids are concrete '
               'per path); 4 states x 2 directions; a second family of '
               'instances over the known-but-unsupported versions is reported '
-              'only; W=40',
+              'only; order of events: the table of another version built '
+              'first in the same process, with a fresh context or with the '
+              'SAME context object moved to the new version; W=40',
     'outside': 'versions not in KNOWN_MINECRAFT_VERSION_RECORDS',
     'assumptions': ['E-index view of PROTOCOL_VERSION_INDICES is exact'],
 }
